@@ -315,6 +315,14 @@ impl<const N: usize> ScenN<N> {
                 let n = d.len() - arg as usize;
                 d.truncate(n);
             }
+            "hash" => {
+                // one byte of the stored SHA-256 of the index altered: the header stays valid, look-ups are not affected,
+                // but loading the index into memory fails its hash check (the fallback must regenerate it)
+                if d.len() < 83 {
+                    return false;
+                }
+                d[45] ^= 0x5a;
+            }
             "hdronly" => d.truncate(83.min(d.len())),
             "unwritten" => {
                 if d.len() < 83 {
@@ -754,6 +762,46 @@ impl<const N: usize> ScenN<N> {
             None => format!("sweep ok n={} failed={}", total, failed),
             Some(b) => format!("sweep bad {}", b),
         }
+    }
+
+    /// `race2 <stall ms> <key> <ts> <lenA> <seedA> <lenB> <seedB>`: two clients write the same key with the same
+    /// timestamp; client A is started first and stalled inside its file write (pause failpoint) for <stall ms>, client B is
+    /// issued while A is stalled.  Both are acknowledged; which of the two wins the tie is decided by the code (the later
+    /// append), and must be the same before and after the index is rebuilt from the blob file.
+    fn race2(&mut self, toks: &[&str]) -> String {
+        use std::sync::Arc;
+        let ms: u64 = toks[1].parse().unwrap_or(300);
+        let key = match hex_bytes(toks[2]) { Some(k) if k.len() == N => k, _ => return "bad-op".into() };
+        let ts: u64 = toks[3].parse().unwrap_or(1);
+        let (la, sa): (usize, u64) = (toks[4].parse().unwrap_or(1), toks[5].parse().unwrap_or(1));
+        let (lb, sb): (usize, u64) = (toks[6].parse().unwrap_or(1), toks.get(7).and_then(|x| x.parse().ok()).unwrap_or(2));
+        let st = match self.st.take() { Some(s) => Arc::new(s), None => return "err NoStorage".into() };
+        let da = gen_data(la, sa);
+        let db = gen_data(lb, sb);
+        self.data.insert(da.clone(), (la, sa));
+        self.data.insert(db.clone(), (lb, sb));
+        pearl::verif::arm(pearl::verif::Failpoint { kind: pearl::verif::OpKind::Write, pattern: ".blob".into(), nth: 0,
+            action: pearl::verif::Action::Pause(77), sticky: false });
+        std::thread::spawn(move || { std::thread::sleep(Duration::from_millis(ms)); pearl::verif::release(77); });
+        let (ra, rb) = self.rt.block_on(async {
+            let k = ArrayKey::<N>::from(key.clone());
+            let st_a = st.clone();
+            let ka = k.clone();
+            let a = tokio::spawn(async move { st_a.write(&ka, Bytes::from(da), BlobRecordTimestamp::new(ts)).await.is_ok() });
+            // wait until A sits at the gate (or give up after 200 ms: a runtime that writes in place blocks here anyway)
+            let t0 = std::time::Instant::now();
+            while pearl::verif::paused_gates().is_empty() && t0.elapsed() < Duration::from_millis(200) {
+                tokio::time::sleep(Duration::from_millis(1)).await;
+            }
+            let rb = tokio::time::timeout(Duration::from_secs(30), st.write(&k, Bytes::from(db), BlobRecordTimestamp::new(ts))).await;
+            let ra = tokio::time::timeout(Duration::from_secs(30), a).await;
+            (matches!(ra, Ok(Ok(true))), matches!(rb, Ok(Ok(()))))
+        });
+        pearl::verif::clear_failpoints();
+        let st = match Arc::try_unwrap(st) { Ok(s) => s, Err(_) => return "err StorageStillShared".into() };
+        self.rt.block_on(async { Self::quiesce(&st).await });
+        self.st = Some(st);
+        format!("{} {}", if ra { "ok" } else { "err" }, if rb { "ok" } else { "err" })
     }
 
     /// `killcheck <ackfile>`: the directory was left behind by a process killed with SIGKILL.  `ackfile` lists the
@@ -1707,6 +1755,9 @@ impl<const N: usize> ScenN<N> {
         if toks[0] == "conc" {
             return self.conc(&toks);
         }
+        if toks[0] == "race2" && toks.len() >= 7 {
+            return self.race2(&toks);
+        }
         if toks[0] == "killcheck" && toks.len() >= 2 {
             return self.killcheck(toks[1]);
         }
@@ -1887,7 +1938,7 @@ impl<const N: usize> ScenN<N> {
             }
         };
         match toks[0] {
-            "w" if toks.len() == 6 => {
+            "w" if toks.len() == 6 || (toks.len() == 7 && toks[6] == "@nodrain") => {
                 let (k, ts, m, len, seed) = match (
                     Self::key(toks[1]),
                     toks[2].parse::<u64>().ok(),
@@ -1906,7 +1957,9 @@ impl<const N: usize> ScenN<N> {
                     None => st.write(&k, Bytes::from(bytes), ts).await,
                     Some(m) => st.write_with(&k, Bytes::from(bytes), ts, m).await,
                 };
-                Self::drain(st).await;
+                if toks.len() == 6 {
+                    Self::drain(st).await;      // `@nodrain`: the requests this write sent stay queued / in progress
+                }
                 let after = Self::active_id(st).await;
                 let sw = if before.is_some() && after != before { " switched" } else { "" };
                 match r {
